@@ -288,6 +288,9 @@ def worker(item):
     elif kind == 'lost_mid_session':
         _k, dll, seed = item
         lost_mid_session(dll, seed, acc)
+    elif kind == 'subhist':
+        _k, dll, first, depth, seed = item
+        subhist(dll, first, depth, seed, acc)
     else:
         _k, dll, wins, seed = item
         bystander(dll, wins, seed, acc)
@@ -394,6 +397,86 @@ def dynamic(dll, seed, acc):
                     acc.violation(re.sub(r'\d+', 'N', probs[0].split(' while ')[0]) + (' while another listener unsubscribes inside its callback' if ' while ' in probs[0] else ''),
                                   sc, None, probs[:3])
     acc.sample({'dll': dll, 'dynamic': 'listener k of %r performs %r inside its callback' % (DYN_KINDS, DYN_ACTIONS)})
+
+SUBH_ADDRS = (0x30, 0x31)
+
+
+def subhist_options(reg):
+    out = []
+    for i in range(3):
+        if reg[i] is None:
+            out += [('sub', i, a) for a in SUBH_ADDRS]
+        else:
+            out.append(('unsub', i))
+    return out
+
+
+def subhist_one(dll, hist):
+    """a history of subscribe(cb, address) / unsubscribe(cb) of three ECU-level listeners bound to addresses no CA of the ECU
+    holds; after every operation a frame to each of the two addresses and a broadcast frame are delivered: a listener is called
+    exactly once iff it is registered and (broadcast or its address is the destination)"""
+    w = rt.World()
+    rt.activate(w)
+    try:
+        bus = Bus(w, base_lat=1e-4)
+        st = Stack(bus, 'X', dll=dll)
+        st.add_ca(0x10, name_value=0x4711)
+        ghost = bus.ghost_node()
+        calls = []
+        cbs = [(lambda priority, pgn, sa, timestamp, data, i=i: calls.append(i)) for i in range(3)]
+        reg = [None, None, None]
+        w.run_for(0.005)
+        probs = []
+        for n, op in enumerate(hist):
+            if op[0] == 'sub':
+                st.ecu.subscribe(cbs[op[1]], op[2])
+                reg[op[1]] = op[2]
+            else:
+                st.ecu.unsubscribe(cbs[op[1]])
+                reg[op[1]] = None
+            for da in SUBH_ADDRS + (255,):
+                del calls[:]
+                n0 = len(bus.log)
+                if da == 255:
+                    ghost.send((6 << 26) | (0xFE << 16) | (0x42 << 8) | FOREIGN_SA, bytes([n, 2, 3, 4, 5, 6, 7, 8]))
+                else:
+                    ghost.send((6 << 26) | (0xD0 << 16) | (da << 8) | FOREIGN_SA, bytes([n, 2, 3, 4, 5, 6, 7, 8]))
+                w.run_for(0.001)
+                for i in range(3):
+                    want = 1 if (reg[i] is not None and (da == 255 or reg[i] == da)) else 0
+                    if calls.count(i) != want:
+                        probs.append("after %r: a frame to %s called listener %d (%s) %d time(s), expected %d" % (
+                            list(hist[:n + 1]), 'all' if da == 255 else '0x%02X' % da, i,
+                            'not registered' if reg[i] is None else 'bound to 0x%02X' % reg[i], calls.count(i), want))
+                if len(bus.log) != n0 + 1:
+                    probs.append("after %r: a single frame made the stack transmit" % (list(hist[:n + 1]),))
+            if probs:
+                break
+        if st.job.exc is not None:
+            probs.append("job thread dead: %s" % st.job.exc_type)
+        return probs
+    finally:
+        w.shutdown()
+
+
+def subhist(dll, first, depth, seed, acc):
+    def rec(hist, reg):
+        if len(hist) == depth:
+            probs = subhist_one(dll, hist)
+            sc = {'kind': 'subhist', 'dll': dll, 'history': [list(o) for o in hist]}
+            acc.case(repr(sc), outcome=len(probs))
+            if probs:
+                import re
+                acc.violation("history of subscribe / unsubscribe of address-bound listeners: " + re.sub(r'after \[.*\]: ', '', re.sub(r'listener \d', 'listener', probs[0])), sc, None, probs[:3])
+            return
+        for op in subhist_options(reg):
+            r2 = list(reg)
+            r2[op[1]] = op[2] if op[0] == 'sub' else None
+            rec(hist + [op], r2)
+    reg = [None, None, None]
+    reg[first[1]] = first[2]
+    rec([first], reg)
+    acc.sample({'dll': dll, 'subhist': 'all histories of depth %d starting with %r' % (depth, first)})
 
 
 def lost_mid_session(dll, seed, acc):
@@ -523,6 +606,8 @@ def run(tier, seed):
         for wins in ((1, 1), (2, 3), (255, 255)):
             items.append(('bystander', dll, wins, seed))
         items.append(('dynamic', dll, seed))
+        for first in subhist_options([None, None, None]):
+            items.append(('subhist', dll, first, 4 if quick else 6, seed))
         items.append(('lost_mid_session', dll, seed))
     return run_check(PROP, tier, seed, 'exploration', items, worker, RULE, ASSUME,
                      bounds={'destinations': 256, 'configurations': len(CONFIGS)})
@@ -541,8 +626,9 @@ def replay(rec):
             return 1
         print("no violation on this tree")
         return 0
-    if sc.get('kind') == 'dynamic':
-        probs = dynamic_one(sc['dll'], sc['k'], sc['action'], sc['first'])
+    if sc.get('kind') in ('dynamic', 'subhist'):
+        probs = dynamic_one(sc['dll'], sc['k'], sc['action'], sc['first']) if sc['kind'] == 'dynamic' else \
+            subhist_one(sc['dll'], [tuple(o) for o in sc['history']])
         if probs:
             print("REPRODUCED: " + "; ".join(probs[:4]))
             print("VIOLATION property=%s replay=(this file)" % PROP)
